@@ -204,6 +204,13 @@ func c04Handshake(c *core.Case, a, b *vnet.Node, f c04Fault, prev *c04Run, locks
 			case "reflect":
 				r.authentic = false
 				deliver(d, msg, false) // back to its sender
+			case "keys-lost":
+				// The receiving router drops the end-to-end keys it holds for the
+				// peer just before this message arrives (what an authentic "no
+				// encryption keys" error ping of that peer makes it do); the
+				// handshake messages themselves stay genuine.
+				_ = [2]*vnet.Node{a, b}[to].St.SetEncryptionSession([2]*vnet.Node{a, b}[d].IP(), nil)
+				deliver(to, msg, true)
 			}
 			continue
 		}
@@ -309,7 +316,7 @@ func TestC04(t *testing.T) {
 
 		f := c04Fault{kind: "none"}
 		if compatible {
-			f.kind = core.OneOf(c, "fault", "none", "flip", "flip", "flip", "truncate", "drop", "duplicate", "reorder", "replay", "reflect")
+			f.kind = core.OneOf(c, "fault", "none", "flip", "flip", "flip", "truncate", "drop", "duplicate", "reorder", "replay", "reflect", "keys-lost")
 		}
 		f.dir, f.idx = c.Pick("fault.dir", 2), c.Pick("fault.idx", 3)
 		f.pos, f.bit = c.Uniform("fault.pos", 0, 399), c.Uniform("fault.bit", 0, 7)
@@ -357,6 +364,20 @@ func TestC04(t *testing.T) {
 				c04NoLink(c, b, a, "after refusing the peer")
 			}
 			c.Class("incompatible-refused")
+		case f.kind == "keys-lost":
+			// A setup that cannot derive its link keys any more aborts and registers
+			// nothing; one that completes at both ends has working, encrypted links.
+			for i := 0; i < 2; i++ {
+				if ends[i].Err != nil {
+					c04NoLink(c, nodes[i], nodes[1-i], "after a setup that failed when the keys for the peer were lost")
+				}
+			}
+			if ea.Err == nil && eb.Err == nil {
+				c04Traffic(c, r, a, b)
+				c.Class("keys-lost/completed")
+			} else {
+				c.Class("keys-lost/aborted")
+			}
 		case f.kind == "none" || (r.authentic && !overtakenAny(r)):
 			if ea.Err != nil || eb.Err != nil {
 				c.Fatalf("honest handshake of compatible routers failed (fault %s left all messages authentic): A=%v B=%v", f.kind, ea.Err, eb.Err)
